@@ -496,6 +496,7 @@ pub struct RunRecord {
 
 fn run_one(wl: Workload, keep: bool) -> RunRecord {
     std::env::set_var("VERIF_HASH_SEED", wl.sc.compile.hash_seed.to_string());
+    simcommon::new_hash_epoch();
     let handle = std::thread::Builder::new()
         .stack_size(512 << 20)
         .spawn(move || {
@@ -610,6 +611,41 @@ fn run_one(wl: Workload, keep: bool) -> RunRecord {
     handle.join().expect("run thread panicked (harness error)")
 }
 
+fn single_threaded(mut wl: Workload, salt: u64) -> Workload {
+    if salt != 0 {
+        wl.sc.compile.hash_seed ^= salt.wrapping_mul(0x9e3779b97f4a7c15) >> 1;
+    }
+    let all: Vec<Op> = wl.threads.iter().flatten().cloned().collect();
+    wl.threads = vec![all];
+    wl
+}
+
+/// Invariant 4 as a replayable check: the single-threaded history under several hash seeds must
+/// give identical logs and reference tables.
+fn sweep_check(wl: &Workload, salts: &[u64]) -> RunRecord {
+    let mut recs = vec![];
+    for s in salts {
+        recs.push(run_one(single_threaded(wl.clone(), *s), true));
+    }
+    let mut rec = recs[0].clone();
+    let digests: std::collections::BTreeSet<String> = recs.iter().map(|r| r.digest.clone()).collect();
+    let refs: std::collections::BTreeSet<String> = recs.iter().map(|r| r.ref_digest.clone()).collect();
+    if digests.len() > 1 || refs.len() > 1 {
+        let v = Violation {
+            property: "C16".into(),
+            invariant: "hash_seed_dependence".into(),
+            class: "unclassified".into(),
+            detail: format!("the single-threaded history gives different Parse/Render logs or reference tables under hash seeds {:?}: log digests {:?}, reference digests {:?}", salts, digests, refs),
+            witness: json!({"salts": salts}),
+        };
+        let mut vs: Vec<serde_json::Value> = rec.verdict.get("Violations").and_then(|x| x.as_array()).cloned().unwrap_or_default();
+        vs.push(serde_json::to_value(&v).unwrap());
+        rec.verdict = json!({"Violations": vs});
+    }
+    rec.workload = Some(wl.clone());
+    rec
+}
+
 fn arg<'a>(args: &'a [String], name: &str) -> Option<&'a str> {
     args.iter().position(|a| a == name).and_then(|i| args.get(i + 1)).map(|s| s.as_str())
 }
@@ -628,6 +664,9 @@ fn main() {
             let hash_salt: u64 = arg(&args, "--hash-salt").unwrap_or("0").parse().unwrap();
             let single: bool = args.iter().any(|a| a == "--single-thread");
             let deadline: Option<f64> = arg(&args, "--deadline-s").map(|s| s.parse().unwrap());
+            // self-test: execute every run `repeat` times in a row in this process
+            let repeat: u64 = arg(&args, "--repeat").unwrap_or("1").parse().unwrap();
+            let mut rep = 0u64;
             let out_path = arg(&args, "--out").expect("--out");
             let mut out = std::io::BufWriter::new(std::fs::File::create(out_path).unwrap());
             let start = std::time::Instant::now();
@@ -640,13 +679,11 @@ fn main() {
                     }
                 }
                 let mut wl = workload::generate(seed, i);
-                if hash_salt != 0 {
-                    wl.sc.compile.hash_seed ^= hash_salt.wrapping_mul(0x9e3779b97f4a7c15) >> 1;
-                }
                 if single {
                     // the hash-seed sweep replays the history single-threaded
-                    let all: Vec<Op> = wl.threads.iter().flatten().cloned().collect();
-                    wl.threads = vec![all];
+                    wl = single_threaded(wl, hash_salt);
+                } else if hash_salt != 0 {
+                    wl.sc.compile.hash_seed ^= hash_salt.wrapping_mul(0x9e3779b97f4a7c15) >> 1;
                 }
                 let keep = kept < samples;
                 let rec = run_one(wl, keep);
@@ -655,7 +692,11 @@ fn main() {
                 }
                 serde_json::to_writer(&mut out, &rec).unwrap();
                 out.write_all(b"\n").unwrap();
-                i += stride;
+                rep += 1;
+                if rep >= repeat {
+                    rep = 0;
+                    i += stride;
+                }
             }
             out.flush().unwrap();
         }
@@ -663,7 +704,10 @@ fn main() {
             let file = arg(&args, "--file").expect("--file");
             let v: serde_json::Value = serde_json::from_str(&std::fs::read_to_string(file).unwrap()).unwrap();
             let wl: Workload = serde_json::from_value(v["workload"].clone()).expect("workload");
-            let rec = run_one(wl, true);
+            let rec = match v.get("hash_sweep").and_then(|x| x.as_array()) {
+                Some(salts) => sweep_check(&wl, &salts.iter().filter_map(|x| x.as_u64()).collect::<Vec<_>>()),
+                None => run_one(wl, true),
+            };
             println!("{}", serde_json::to_string(&rec).unwrap());
             if rec.verdict != json!("Ok") {
                 std::process::exit(1);
